@@ -183,7 +183,7 @@ class gre (packet_base):
         if (self.routing is not None) or (self.csum is not None):
             # If we're doing checksum computation, insert a 0 for now, and
             # we'll fix it later.
-            r += struct.pack("!HH", 0 if self.csum in (True, None) else self.csum,
+            r += struct.pack("!HH", 0 if (self.csum is True or self.csum is None) else self.csum,
                              self.route_offset)
 
         if self.key is not None:
